@@ -154,6 +154,16 @@ func GenerateSupport(harnessDir, genDir string, obls []Obligation) error {
 		}
 	}
 	os.RemoveAll(genDir)
+	rtSrc, err := os.ReadFile(filepath.Join(harnessDir, "_tmpl", "zz_verif_rt.go.tmpl"))
+	if err != nil {
+		return err
+	}
+	if err := os.MkdirAll(filepath.Join(genDir, "zzverifrt"), 0o755); err != nil {
+		return err
+	}
+	if err := os.WriteFile(filepath.Join(genDir, "zzverifrt", "rt.go"), rtSrc, 0o644); err != nil {
+		return err
+	}
 	for rel, k := range pkgs {
 		d := filepath.Join(genDir, rel)
 		if err := os.MkdirAll(d, 0o755); err != nil {
